@@ -287,7 +287,7 @@ var c14Prop = pbt.Register(pbt.Prop[C14Case]{
 	Name: "C14",
 	Gen: func(t *rapid.T) C14Case {
 		c := C14Case{WriterAt: rapid.Bool().Draw(t, "writerat")}
-		if pbt.Thorough() && rapid.IntRange(0, 15).Draw(t, "real") == 9 {
+		if rapid.IntRange(0, pbt.Pick(23, 15)).Draw(t, "real") == 9 { // *os.File: Truncate, ReadAt/WriteAt, real short reads at EOF
 			c.RealFile = true
 		}
 		c.Ops = genRegOps(t, rapid.IntRange(1, pbt.Pick(60, 400)).Draw(t, "nops"), false)
